@@ -2,6 +2,7 @@
 do (object.__new__ + the attributes the function reads, loggers stubbed), call
 the REAL function and evaluate the violated clause natively."""
 
+import os
 import copy
 import threading
 import time
@@ -1993,6 +1994,91 @@ def advance_wrappers(case, rp):
     finally:
         cm.BaseComponent.advance = saved
     return dict(confirmed=False, detail='%d wrapper calls hand their arguments on unchanged natively' % n)
+
+
+@builder('agent/resource_manager/slurm.py:Slurm.init_from_scratch')
+def slurm_init(case, rp):
+    """the real Slurm.init_from_scratch under a set of environments: a configured node size
+    is kept, otherwise the reported one is taken; one node per allocated host, in order"""
+    import tempfile, shutil, itertools
+    from radical.pilot.agent.resource_manager.slurm import Slurm
+    from radical.pilot.agent.resource_manager.base import RMInfo
+    keys = ('SLURM_NODELIST', 'SLURM_JOB_NODELIST', 'SLURM_CPUS_ON_NODE', 'SLURM_GPUS_ON_NODE', 'SLURM_JOB_GPUS', 'SLURM_STEP_GPUS', 'GPU_DEVICE_ORDINAL')
+    saved = {k: os.environ.get(k) for k in keys}
+    cwd = os.getcwd(); tmp = tempfile.mkdtemp(prefix='verif_slurm_')
+    n = 0
+    try:
+        os.chdir(tmp)
+        for cfg_cpn, env_cpn, cfg_gpn, env_gpn in itertools.product((0, 64), (None, '128'), (0, 4), (None, '8')):
+            n += 1
+            for k in keys: os.environ.pop(k, None)
+            os.environ['SLURM_NODELIST'] = 'nid[0001-0003]'
+            if env_cpn: os.environ['SLURM_CPUS_ON_NODE'] = env_cpn
+            if env_gpn: os.environ['SLURM_GPUS_ON_NODE'] = env_gpn
+            rm = object.__new__(Slurm); rm._log, rm._prof = Stub(), Stub()
+            info = RMInfo({'cores_per_node': cfg_cpn, 'gpus_per_node': cfg_gpn, 'lfs_per_node': 0, 'mem_per_node': 0, 'threads_per_core': 1})
+            try:
+                out = rm.init_from_scratch(info)
+            except RuntimeError:
+                if cfg_cpn or env_cpn:
+                    return dict(confirmed=True, detail='init_from_scratch refuses although the node size is known (configured %s, reported %s)' % (cfg_cpn, env_cpn),
+                                input=dict(configured_cores=cfg_cpn, SLURM_CPUS_ON_NODE=env_cpn))
+                continue
+            want_c = cfg_cpn or int(env_cpn)
+            want_g = cfg_gpn or int(env_gpn or 0)
+            probs = []
+            if out.cores_per_node != want_c: probs.append('cores per node %s, expected %s (configured %s, $SLURM_CPUS_ON_NODE %s)' % (out.cores_per_node, want_c, cfg_cpn, env_cpn))
+            if (out.gpus_per_node or 0) != want_g: probs.append('GPUs per node %s, expected %s (configured %s, $SLURM_GPUS_ON_NODE %s)' % (out.gpus_per_node, want_g, cfg_gpn, env_gpn))
+            names = [x['name'] for x in out.node_list]
+            if names != ['nid0001', 'nid0002', 'nid0003']: probs.append('nodes offered: %s' % names)
+            if any(len(x['cores']) != want_c for x in out.node_list): probs.append('nodes are offered with %s cores' % [len(x['cores']) for x in out.node_list])
+            if probs:
+                return dict(confirmed=True, detail='; '.join(probs[:3]), found_by='bounded native enumeration (%d environments)' % n,
+                            input=dict(configured_cores=cfg_cpn, SLURM_CPUS_ON_NODE=env_cpn, configured_gpus=cfg_gpn, SLURM_GPUS_ON_NODE=env_gpn))
+    finally:
+        os.chdir(cwd); shutil.rmtree(tmp, ignore_errors=True)
+        for k, v in saved.items():
+            if v is None: os.environ.pop(k, None)
+            else: os.environ[k] = v
+    return dict(confirmed=False, detail='%d Slurm environments give the configured / reported node size natively' % n)
+
+
+@builder('pmgr/launching/base.py:PMGRLaunchingComponent.work#bucket')
+def pmgr_launch_buckets(case, rp):
+    """the real PMGRLaunchingComponent.work on bulks spanning several (resource, schema) buckets,
+    with the bulk launch of one bucket failing: only that bucket's pilots are reported FAILED"""
+    import itertools
+    from radical.pilot.pmgr.launching.base import PMGRLaunchingComponent as L
+    n = 0
+    for fail_at, cancelled in itertools.product((None, ('a', 's1'), ('b', 's1'), ('a', 's2')), ([], ['p3'])):
+        n += 1
+        c = object.__new__(L)
+        c._log, c._prof = Stub(), Stub()
+        c._cancelled = list(cancelled)
+        adv = []
+        c.advance = lambda things, state=None, **kw: adv.extend((t['uid'], state) for t in (things if isinstance(things, list) else [things]))
+        def launch(resource, schema, pilots, _f=fail_at):
+            if _f == (resource, schema): raise RuntimeError('submission failed')
+        c._start_pilot_bulk = launch
+        mk = lambda uid, r, s_: {'uid': uid, 'description': {'resource': r, 'access_schema': s_}}
+        pilots = [mk('p1', 'a', 's1'), mk('p2', 'a', 's2'), mk('p3', 'b', 's1'), mk('p4', 'a', 's1')]
+        try:
+            c.work(pilots)
+        except Exception as e:
+            return dict(confirmed=True, detail='work raised %r' % e, input=dict(fail_at=fail_at, cancelled=cancelled))
+        probs = []
+        for p in pilots:
+            uid, key = p['uid'], (p['description']['resource'], p['description']['access_schema'])
+            states = [s_ for u, s_ in adv if u == uid]
+            if uid in cancelled: want = ['CANCELED']
+            elif key == fail_at: want = ['PMGR_LAUNCHING', 'FAILED']
+            else:                want = ['PMGR_LAUNCHING', 'PMGR_ACTIVE_PENDING']
+            if states != want:
+                probs.append('%s (bucket %s): reported %s, expected %s' % (uid, key, states, want))
+        if probs:
+            return dict(confirmed=True, detail='launch of bucket %s fails, cancelled before launch %s: %s' % (fail_at, cancelled, '; '.join(probs[:3])),
+                        input=dict(failing_bucket=fail_at, cancelled=cancelled), found_by='bounded native enumeration (%d bulks)' % n)
+    return dict(confirmed=False, detail='%d bulks: a failing bucket fails its own pilots only' % n)
 
 
 @builder('raptor/master.py:Master._submit_tasks')
